@@ -172,3 +172,10 @@ pub(crate) fn owned_fd_drop(this: &mut std::os::fd::OwnedFd) {
 pub(crate) fn flock_holder() -> Option<i32> {
     unsafe { FLOCK_HOLDER }
 }
+
+/// `<io::Error as Display>::fmt` / `Debug::fmt` -> nothing written. `to_string()`
+/// on an io::Error otherwise dispatches dynamically into the Display/Debug
+/// impls of every error type (pretty-printing machinery included).
+pub(crate) fn io_error_display(_this: &io::Error, _f: &mut core::fmt::Formatter<'_>) -> core::fmt::Result {
+    Ok(())
+}
